@@ -140,7 +140,7 @@ func runC04(c *Ctx) {
 	mon.DiscardStdLog()
 	k := c.Pick(512, 8192)
 	var mu sync.Mutex
-	var evals, takenN, untakenN, overlapN, wrapN, laws int64
+	var evals, takenN, untakenN, overlapN, wrapN, laws, directN int64
 	distinct := mon.NewDistinct(4_000_000)
 
 	type opdef struct {
@@ -181,7 +181,9 @@ func runC04(c *Ctx) {
 		mem.Logging = true
 		var rc mon.RetCounter
 		hn, hi := rc.Handlers()
-		var lev, ltk, lutk, lov, lwr int64
+		var lev, ltk, lutk, lov, lwr, ldirect int64
+		var dm z80.DumbMemory
+		var mm z80.MapMemory
 		outer := 256
 		if od.mode == 2 {
 			outer = 16
@@ -344,6 +346,78 @@ func runC04(c *Ctx) {
 				if j < 4 || (i*k+j)%3 == 0 {
 					distinct.Add(mon.Hash(uint64(oi), uint64(i), uint64(exp.Taken+1), uint64(pre.PC)<<16|uint64(pre.SP), uint64(bs[len(bs)-1])))
 				}
+				// every 4th case again on a 64 KiB z80.DumbMemory / z80.MapMemory handed to
+				// the CPU directly: the outcome must not depend on the memory's type
+				if bad == "" && (i*k+j)%4 == 1 {
+					useMap := (i*k+j)%8 == 5
+					if dm == nil {
+						dm = make(z80.DumbMemory, 65536)
+						mm = make(z80.MapMemory, 65536)
+						for a := 0; a < 65536; a++ {
+							dm[a] = 0
+							mm[uint16(a)] = 0
+						}
+					}
+					// the instruction, its neighbourhood and the stack bytes are all the
+					// closed form depends on: copy the bytes the monitored run saw
+					var direct z80.Memory = dm
+					if useMap {
+						direct = mm
+					}
+					var touched []uint16
+					put := func(a uint16, v uint8) {
+						direct.Set(a, v)
+						touched = append(touched, a)
+					}
+					for _, a := range mem.Log {
+						if a.Kind == 'R' {
+							put(a.Addr, a.Val)
+						}
+					}
+					for k2 := 0; k2 < 4; k2++ {
+						put(pre.PC+uint16(k2), mem.Data[pre.PC+uint16(k2)])
+					}
+					for _, a := range mem.Log { // a read after the Step's own write must not leak in
+						if a.Kind == 'W' {
+							put(a.Addr, mem.Data[a.Addr]^0xff)
+						}
+					}
+					// the instruction bytes as they were before the Step
+					for k2, b := range bs {
+						put(pre.PC+uint16(k2), b)
+					}
+					dcpu := z80.CPU{States: pre, Memory: direct}
+					var dpan interface{}
+					func() {
+						defer func() { dpan = recover() }()
+						dcpu.Step()
+					}()
+					dpost := dcpu.States
+					dpost.IR.Lo = exp.Post.IR.Lo
+					if isRETI && dpost.IFF1 == dpost.IFF2 {
+						dpost.IFF1 = exp.Post.IFF1
+					}
+					switch {
+					case dpan != nil:
+						bad = fmt.Sprintf("panic on a bundled memory type: %v", dpan)
+					case dpost != exp.Post && len(exp.Reads) == 0:
+						bad = "outcome differs on a bundled memory type handed over directly"
+					}
+					if bad == "" {
+						for _, w := range exp.Writes {
+							if direct.Get(w.Addr) != w.Val {
+								bad = "stack bytes differ on a bundled memory type handed over directly"
+							}
+						}
+					}
+					for _, a := range touched {
+						direct.Set(a, 0)
+					}
+					for _, w := range exp.Writes {
+						direct.Set(w.Addr, 0)
+					}
+					ldirect++
+				}
 				if bad != "" {
 					c.R.Violation(fmt.Sprintf("C04/%s/%s", od.name, bad), map[string]interface{}{
 						"instruction": od.name, "bytes": HexBytes(bs), "what": bad, "pre": DumpState(&pre, false),
@@ -362,6 +436,7 @@ func runC04(c *Ctx) {
 		untakenN += lutk
 		overlapN += lov
 		wrapN += lwr
+		directN += ldirect
 		mu.Unlock()
 	})
 
@@ -479,6 +554,7 @@ func runC04(c *Ctx) {
 	c.R.Set("conditional_untaken", untakenN)
 	c.R.Set("stack_overlaps_instruction_cases", overlapN)
 	c.R.Set("wrap_cases", wrapN)
+	c.R.Set("cases_also_on_DumbMemory_or_MapMemory_directly", directN)
 	c.R.Set("instructions", int64(len(ops)))
 	c.R.Set("exhaustive", false)
 	c.R.Set("exhaustive_over", "all 256 F for each of the 28 conditional opcodes, all 256 B for DJNZ, all 256 offsets for JR/JR cc/DJNZ; data sampled")
